@@ -50,6 +50,18 @@ Print Assumptions merge_ranges_are_anchor_cells.
 
 (* persistence: origin = col << 16 | row and size = ncols << 16 | nrows read back exactly while row and
    height fit 16 bits; the hypothesis is forced by the packing *)
+(* a table that has just been created (Document(), add_table, add_sheet) has no merged cell, whatever the document's
+   other tables carry: its list of merge ranges is empty and every cell is an ordinary empty cell *)
+Theorem new_table_has_no_merges : forall nr nc,
+  merge_ranges (new_table nr nc) = [] /\ merges (new_table nr nc) = [].
+Proof. exact new_table_no_merges_lemma. Qed.
+Print Assumptions new_table_has_no_merges.
+
+Theorem new_table_cells_are_plain : forall nr nc row x, In row (data (new_table nr nc)) -> In x row ->
+  cmerge x = MPlain /\ cplace x = false /\ cval x = None.
+Proof. exact new_table_cells_plain. Qed.
+Print Assumptions new_table_cells_are_plain.
+
 Theorem merge_reload : forall r c h w,
   0 <= r < 65536 -> 0 <= c -> 0 <= h < 65536 -> 0 <= w ->
   forall rr cc,
